@@ -2,6 +2,7 @@
 mod verif_kani_format {
     //! U6: retirement marker layout; block-wise marker filling.
     use super::*;
+    use crate::storage::seq_token::verif_kani_seq::{pl_lock_exclusive_slow, pl_lock_shared_slow, pl_mutex_lock_slow, pl_mutex_unlock_slow, pl_unlock_exclusive_slow, pl_unlock_shared_slow};
     use crate::storage::seq_token::verif_kani_seq::{fold_ref, ghost_chain_is, ghost_chain_result, ghost_chains, ghost_reset, stub_crc32c_impl_ghost};
 
     // marker bytes for (remaining, state) with the given token
@@ -83,5 +84,38 @@ mod verif_kani_format {
             assert!(buf[blocks * B] == 0x5A, "nothing beyond the given blocks");
         }
         kani::cover!(i == 1);
+    }
+
+    // C10: which record format a metadata version selects - v1 files keep the v1 record (no expiry field), v2 and v3 use the
+    // v2 record; both accessors agree. Distinguished by behaviour (header size and value offset for every key length), all u32 versions.
+    #[kani::proof]
+    #[kani::stub(parking_lot::RawRwLock::lock_shared_slow, pl_lock_shared_slow)]
+    #[kani::stub(parking_lot::RawRwLock::lock_exclusive_slow, pl_lock_exclusive_slow)]
+    #[kani::stub(parking_lot::RawRwLock::unlock_shared_slow, pl_unlock_shared_slow)]
+    #[kani::stub(parking_lot::RawRwLock::unlock_exclusive_slow, pl_unlock_exclusive_slow)]
+    #[kani::stub(parking_lot::RawMutex::lock_slow, pl_mutex_lock_slow)]
+    #[kani::stub(parking_lot::RawMutex::unlock_slow, pl_mutex_unlock_slow)]
+    fn format_selection() {
+        let version: u32 = kani::any();
+        let k: usize = kani::any();
+        kani::assume(k <= 0x10_0000);
+        let by_ref = get_format_ref(version);
+        let boxed = get_format(version);
+        let v1_header = SECTOR_HEADER_SIZE + 2 + k + 8 + 8;
+        let v2_header = v1_header + 8;
+        assert!(by_ref.record_header_size(k) == boxed.record_header_size(k), "get_format and get_format_ref select the same format");
+        assert!(by_ref.value_offset(k) == boxed.value_offset(k));
+        if version == 1 {
+            assert!(by_ref.record_header_size(k) == v1_header, "version 1 => v1 record: header | key_len | key | value_len | timestamp");
+            assert!(by_ref.value_offset(k) == v1_header);
+        } else if version == 2 || version == 3 {
+            assert!(by_ref.record_header_size(k) == v2_header, "versions 2 and 3 => v2 record: ... | timestamp | expiry");
+            assert!(by_ref.value_offset(k) == v2_header);
+        } else {
+            assert!(by_ref.record_header_size(k) == v1_header || by_ref.record_header_size(k) == v2_header);
+        }
+        kani::cover!(version == 1);
+        kani::cover!(version == 3);
+        kani::cover!(version > 3);
     }
 }
